@@ -10,7 +10,8 @@ package main
 //   c06.cigar  sam.ParseCigar                          vs parseCigar
 //   c06.aux    sam.ParseAux                            vs parseAux
 //   c06.read   sam.NewReader + Read until error/EOF    vs splitHeader + readAll / readAllNoHeader
-// Property oracle (implementation only): for every expressible record and both parseable flag formats,
+// Property oracle (implementation only): for every expressible record and both parseable flag formats (against the
+// header AND with a nil header, where references are placeholders with id -1),
 // format → parse → format is the identity on the line, the fields are equal, and the line equals the
 // independent formatter's; a record written to BAM and read back formats to the same line; the reader
 // returns one record per line for LF/CRLF input with or without final newline.
@@ -848,6 +849,38 @@ func c06RecordOracle(c *ctx, hd []c06Ref, rr c06Rec, h *sam.Header, refs []*sam.
 	if r2.Ref != r.Ref || r2.MateRef != r.MateRef {
 		res.fail("c06.fields."+fn+".refptr", "reference pointers differ after format+parse", in)
 	}
+}
+
+// c06NilHeaderOracle: the line of an expressible record parsed WITHOUT a header (placeholder references that all
+// have id -1 and differ only by pointer and name) formats to the identical line again, which is also the
+// independent formatter's line.  Returns the re-parsed record for the model comparison.
+func c06NilHeaderOracle(c *ctx, hd []c06Ref, rr c06Rec, refs []*sam.Reference, f int) *sam.Record {
+	res := c.res
+	in := c06Input{Kind: "record-nilheader", Header: hd, Rec: &rr, FlagFmt: f}
+	fn := c06FlagNames[f]
+	line, st, _ := c06Marshal(c06Build(refs, rr), f)
+	if st == "panic" || st == "err" {
+		return nil // reported by c06RecordOracle
+	}
+	r2, st2, err, o2 := c06Unmarshal(nil, line)
+	if st2 == "panic" {
+		res.fail("c06.nilheader.reparse.panic:"+topRepoFrame(o2.stack), fmt.Sprintf("UnmarshalSAM(nil, %q) panics: %s", line, o2.panicVal), in)
+		return nil
+	}
+	if st2 == "err" {
+		res.fail("c06.nilheader.reparse."+fn+"."+c06ErrClass(err), fmt.Sprintf("the library's own line %q does not parse with a nil header: %v", line, err), in)
+		return nil
+	}
+	line2, st3, _ := c06Marshal(r2, f)
+	if st3[:2] != "ok" || !bytes.Equal(line, line2) {
+		fld := c06FirstDiffField(line, line2)
+		res.fail("c06.nilheader.reformat."+fn+"."+fld, fmt.Sprintf("format(parse(line)) with a nil header differs at %s: %q then %q", fld, line, line2), in)
+	}
+	if spec, ok := c06SpecLine(hd, rr, f == 1); ok && st3[:2] == "ok" && !bytes.Equal(spec, line2) {
+		fld := c06FirstDiffField(line2, spec)
+		res.fail("c06.nilheader.spec."+fn+"."+fld, fmt.Sprintf("the line of the record parsed with a nil header differs from the specification's at %s: got %q want %q", fld, line2, spec), in)
+	}
+	return r2
 }
 
 // c06BamTrip writes the records to BAM in memory and reads them back: "" when every record formats to
@@ -1808,6 +1841,20 @@ func (x *c06Run) recordCase(hd []c06Ref, rr c06Rec, judge bool) {
 	if expr && judge {
 		c06RecordOracle(c, hd, rr, h, refs, 0)
 		c06RecordOracle(c, hd, rr, h, refs, 1)
+		// the nil-header path (UnmarshalSAM(nil, ...), UnmarshalText): references are placeholders with id -1
+		for f := 0; f <= 1; f++ {
+			if r2 := c06NilHeaderOracle(c, hd, rr, refs, f); r2 != nil {
+				_, st, _ := c06Marshal(r2, f)
+				auxs2 := make([][]byte, len(r2.AuxFields))
+				for i, a := range r2.AuxFields {
+					auxs2[i] = a
+				}
+				x.model(st, "c06.fmt %d %s %s", f, c06FmtTable(auxs2), strings.Join(c06Dump(r2, false), " "))
+			}
+		}
+		if rr.Ref >= 0 && rr.Mate >= 0 && rr.Ref != rr.Mate {
+			c.res.hist("record.nilheader.mate-on-other-reference")
+		}
 		c.res.hist("record.expressible")
 	} else {
 		c.res.hist("record.not-expressible")
@@ -2061,6 +2108,11 @@ func checkC06(c *ctx) {
 			h, refs, err := c06MakeHeader(in.Header)
 			if err == nil && in.Rec != nil {
 				c06RecordOracle(c, in.Header, *in.Rec, h, refs, in.FlagFmt)
+			}
+		case "record-nilheader":
+			_, refs, err := c06MakeHeader(in.Header)
+			if err == nil && in.Rec != nil {
+				c06NilHeaderOracle(c, in.Header, *in.Rec, refs, in.FlagFmt)
 			}
 		case "bam":
 			c06BamOracle(c, in.Header, in.Recs)
